@@ -60,7 +60,9 @@ func run(cfg *hx.RunCfg) (*hx.Result, error) {
 			p.Free, p.Schedule = true, nil
 			sh += "-free"
 		}
-		jobs = append(jobs, cx.Job{P: p, Bucket: sh})
+		// first-root programs from the random stream are judged by the oracle only: the model's account of
+		// the root phase (Corr/C04.v root_check) is validated on the deterministic corpus schedules
+		jobs = append(jobs, cx.Job{P: p, Bucket: sh, NoModel: len(p.Init) == 0})
 	}
 	if cfg.Tier == "thorough" {
 		jobs = append(jobs, cx.ExhaustiveC04()...)
